@@ -252,10 +252,12 @@ impl ToZinc for Uri {
 
 impl ToZinc for XStr {
     fn to_zinc<W: std::io::Write>(&self, writer: &mut W) -> Result<()> {
+        let mut type_chars = self.r#type.chars();
+        let first = type_chars.next().map(|c| c.to_uppercase().to_string());
         writer.write_fmt(format_args!(
             "{}{}(",
-            self.r#type[0..1].to_uppercase(),
-            &self.r#type[1..],
+            first.unwrap_or_default(),
+            type_chars.as_str(),
         ))?;
         Str::make(&self.value).to_zinc(writer)?;
         writer.write_all(b")")?;
